@@ -69,9 +69,9 @@ def _norm(path: str) -> str:
         rel = rel[: -len(" (deleted)")]
     lock = rel.endswith(".lock")
     base = rel[:-5] if lock else rel
-    if base.startswith("db_quick_info_") and base.endswith(".cache"):
+    if base.startswith("db_quick_info_"):
         base = "Q"
-    elif base.startswith("db_data_") and base.endswith(".cache"):
+    elif base.startswith("db_data_"):
         base = "D"
     return base + (".lock" if lock else "")
 
@@ -598,7 +598,7 @@ def run_midlife() -> dict:
     dmg = CFG.get("damage") or {}
     done = {}
     for name in sorted(os.listdir(CACHE)):
-        if not name.endswith(".cache"):
+        if name.endswith(".lock") or not name.startswith(("db_quick_info_", "db_data_")):
             continue
         which = "Q" if name.startswith("db_quick_info_") else "D"
         how = dmg.get(which)
@@ -666,6 +666,13 @@ def main() -> int:
     _RNG = random.Random(f"{sched.get('seed', 0)}/{_IDX}")
     if CFG.get("log"):
         _LOG_FD = os.open(CFG["log"], os.O_WRONLY | os.O_APPEND | os.O_CREAT, 0o644)
+    early = bool(CFG.get("early"))
+    if early:
+        # the start itself is part of the schedule: hooks on and the children released together BEFORE the package is
+        # imported, so whatever 'import spsdk' does to the cache folder happens in N processes at once
+        sys.addaudithook(_hook)
+        barrier_wait()
+        _T_ARMED = True
     try:
         import spsdk
 
@@ -680,13 +687,26 @@ def main() -> int:
         # children really start their first use together
         from spsdk.utils import database as D  # noqa: F401
         import fcntl  # noqa: F401
-    except Exception:  # pylint: disable=broad-except
+    except Exception as e:  # pylint: disable=broad-except
         traceback.print_exc()
-        return 97
-    if CFG.get("log") or CFG.get("kill_at") is not None or sched.get("kind", "none") != "none":
+        if not early:
+            return 97
+        # in an early start the import belongs to what is judged: this is a process that did not start
+        _T_ARMED = False
+        s = exc_summary(e)
+        _log(f"{_IDX} {os.getpid()} {_NEV} DIED:{s['type']} -")
+        mark_done()
+        try:
+            with open(CFG["out"] + ".err", "w", encoding="utf-8") as f:
+                json.dump(s, f)
+        except OSError:
+            pass
+        return 1
+    if not early and (CFG.get("log") or CFG.get("kill_at") is not None or sched.get("kind", "none") != "none"):
         sys.addaudithook(_hook)
     mode = CFG["mode"]
-    barrier_wait()
+    if not early:
+        barrier_wait()
     _T_ARMED = True
     try:
         if mode == "digest":
